@@ -99,6 +99,9 @@ CHECKS = {
 ENABLED_ENTRIES = [
     "sim/paysim/ENTRY.py",
     "sim/sweepsim/ENTRY.py",
+    "sim/closersim/ENTRY.py",
+    "sim/circuitsim/ENTRY.py",
+    "sim/ntfnsim/ENTRY.py",
 ]
 
 
